@@ -14,12 +14,35 @@
   * `C01_each_payload_stored_once`: every item callback of the stream adds exactly one object
     to the result and block callbacks add none: after any stream that folds without error
     the number of stored objects equals the number of item callbacks (nothing lost, nothing
-    stored twice) — `Theorems/FoldCount.lean`.
+    stored twice) — `Theorems/FoldCount.lean`;
+  * `C01_enumerator_list`, `C01_enumerator_list_trailing_comma`: one declaration form proved
+    end to end against the real token stream — for EVERY enumerator list `n1 [= v1], …, nk [= vk] }`
+    (any length; values with no top-level `,` or `}`; with or without a trailing comma; any
+    comments, blank lines or doc blocks between the tokens), `_parse_enumerator_list` over the
+    regenerated lexer rules returns one enumerator per item, in order, with the written name
+    and exactly the written value tokens (or no value), and leaves the stream right after the
+    closing brace (`Theorems/EnumList.lean`);
+  * `C01_using_namespace`: a whole declaration form — after `using namespace`, for a qualified
+    name `n1 :: … :: nk` of any length, `_parse_using_directive` is exactly "read the name, then
+    deliver one `on_using_namespace [n1, …, nk]`" to the innermost open block, and the token
+    after the name stays in the stream (`Theorems/UsingDir.lean`);
+  * `C01_using_namespace_decl` (`Theorems/UsingDecl.lean`): the same one level up — outside a
+    class, `_parse_using` on `namespace n1 :: … :: nk` is exactly "record the `using` token's
+    location on the innermost block, deliver one `on_using_namespace`, require `;`";
+  * `C01_namespace_alias`: `namespace A = [::] n1 :: … :: nk ;` of any length is exactly "read
+    the declaration, then `nsFinish` with the written names and the alias token": one
+    `on_namespace_alias` carrying `A` and `[n1, …, nk]` (a leading `::` kept as a first name,
+    as the implementation does), or the documented errors (`Theorems/NsForm.lean`).
 -/
 import CxxModel.Tables
 import CxxModel.Props.C04
 import CxxModel.SimpleFold
 import CxxModel.Theorems.FoldCount
+import CxxModel.Theorems.EnumList
+import CxxModel.Theorems.UsingDir
+import CxxModel.Theorems.NsForm
+import CxxModel.Theorems.UsingDecl
+import CxxModel.GenCfg
 namespace Cxx
 
 theorem C01_dispatch : Gen.dispatchTable.length = 20 ∧ Gen.dispatchTable.lookup ";" = some "<lambda:Constant(None)>" ∧
@@ -68,5 +91,81 @@ theorem C01_one_callback (fs fs' : FoldState) (e : Event) (h : foldStep fs e = .
       | .item _ => fs.total + 1
       | _ => fs.total) :=
   foldStep_total fs fs' e h
+
+
+theorem C01_enumerator_list (env : Env) (hc : env.cfg = genLexCfg) (F : Nat) (pre : List EItem) (last : EItem)
+    (more : List Tok) (w : World) (bEnd : Buf)
+    (hall : ∀ i ∈ pre, i.OK ∧ i.sep.type = "," ∧ i.toks.length + 2 ≤ F)
+    (hlast : last.OK ∧ last.sep.type = "}" ∧ last.toks.length + 2 ≤ F)
+    (hy : Yields env.cfg w.buf ((pre ++ [last]).flatMap EItem.toks ++ more) bEnd) (hF : pre.length + 1 ≤ F) :
+    ∃ (w' : World) (vs : List Enumerator) (bEnd' : Buf), interp env (P.parseEnumeratorList F) w = (w', .ok vs) ∧
+      vs.map Enumerator.nv = (pre ++ [last]).map EItem.nv ∧
+      Yields env.cfg w'.buf more bEnd' ∧ SigEq bEnd bEnd' ∧ SameParse w w' :=
+  enumList_last env (by rw [hc]; exact gen_rules_progress) F pre last more w bEnd hall hlast hy hF
+
+theorem C01_enumerator_list_trailing_comma (env : Env) (hc : env.cfg = genLexCfg) (F : Nat) (items : List EItem) (cl : Tok)
+    (more : List Tok) (w : World) (bEnd : Buf)
+    (hall : ∀ i ∈ items, i.OK ∧ i.sep.type = "," ∧ i.toks.length + 2 ≤ F)
+    (hty : cl.type = "}") (hv : cl.value = "}")
+    (hy : Yields env.cfg w.buf (items.flatMap EItem.toks ++ cl :: more) bEnd) (hF : items.length + 1 ≤ F) :
+    ∃ (w' : World) (vs : List Enumerator) (bEnd' : Buf), interp env (P.parseEnumeratorList F) w = (w', .ok vs) ∧
+      vs.map Enumerator.nv = items.map EItem.nv ∧
+      Yields env.cfg w'.buf more bEnd' ∧ SigEq bEnd bEnd' ∧ SameParse w w' :=
+  enumList_trailing env (by rw [hc]; exact gen_rules_progress) F items cl more w bEnd hall hty hv hy hF
+
+/-! non-vacuity: `A = 1 + f ( 2 , 3 ) ,` is an item -/
+example : (EItem.mk { type := "NAME", value := "A", loc := default }
+    (some ({ type := "=", value := "=", loc := default },
+      [{ type := "INT_CONST_DEC", value := "1", loc := default }, { type := "+", value := "+", loc := default },
+       { type := "NAME", value := "f", loc := default }, { type := "(", value := "(", loc := default },
+       { type := "INT_CONST_DEC", value := "2", loc := default }, { type := ",", value := ",", loc := default },
+       { type := "INT_CONST_DEC", value := "3", loc := default }, { type := ")", value := ")", loc := default }]))
+    { type := ",", value := ",", loc := default }).OK := by
+  refine ⟨rfl, by decide, .inl rfl, ?_⟩
+  intro e v h
+  simp only [Option.some.injEq, Prod.mk.injEq] at h
+  obtain ⟨rfl, rfl⟩ := h
+  refine ⟨rfl, ?_⟩
+  exact .atom _ _ (by decide) (by decide) (.atom _ _ (by decide) (by decide) (.atom _ _ (by decide) (by decide)
+    (.group "(" ")" ["INT_CONST_DEC", ",", "INT_CONST_DEC"] [] (by decide) (by decide)
+      (.atom _ _ (by decide) (by decide) (.atom _ _ (by decide) (by decide) (.atom _ _ (by decide) (by decide) .nil))) .nil)))
+
+
+theorem C01_using_namespace (env : Env) (pairs : List (Tok × Tok)) (first : Tok) (w : World) (bmid b' : Buf) (term : Tok) (F : Nat)
+    (hf : first.type = "NAME") (hall : ∀ p ∈ pairs, p.1.type = "DBL_COLON" ∧ p.2.type = "NAME")
+    (hy : Yields env.cfg w.buf (first :: pairs.flatMap (fun p => [p.1, p.2])) bmid)
+    (htok : tokenEofOk env.cfg bmid = .ok (some term, b')) (hterm : term.type ≠ "DBL_COLON") (hF : pairs.length + 1 ≤ F) :
+    ∃ (w' : World) (t' : Tok), w'.buf = returnToken t' b' ∧ t'.tv = term.tv ∧ SameParse w w' ∧
+      interp env (P.parseUsingDirective F) w =
+        interp env (P.emit (.usingNamespace (first.value :: pairs.map (·.2.value)))) w' :=
+  usingDirective_plain env pairs first w bmid b' term F hf hall hy htok hterm hF
+
+theorem C01_namespace_alias (env : Env) (F : Nat) (tok : CTok) (doxygen : Option String) (inline : Bool)
+    (first eq : Tok) (lead : Option Tok) (n1 : Tok) (pairs : List (Tok × Tok)) (semi : Tok) (w : World) (b' : Buf)
+    (hf : first.type = "NAME") (heq : eq.type = "=") (hlead : ∀ l, lead = some l → l.type = "DBL_COLON")
+    (hn1 : n1.type = "NAME") (hall : ∀ p ∈ pairs, p.1.type = "DBL_COLON" ∧ p.2.type = "NAME") (hsemi : semi.type = ";")
+    (hy : Yields env.cfg w.buf (first :: eq :: (lead.toList ++ n1 :: (pairs.flatMap (fun p => [p.1, p.2]) ++ [semi]))) b')
+    (hF : pairs.length + 1 ≤ F) :
+    ∃ (w' : World) (a : CTok), w'.buf = b' ∧ SameParse w w' ∧ a.value = first.value ∧
+      interp env (P.parseNamespace F tok doxygen inline) w =
+        interp env (P.nsFinish (.tok tok.sidx) doxygen inline
+          (lead.toList.map (·.value) ++ n1.value :: pairs.map (·.2.value)) (some a)) w' :=
+  namespace_alias_form env F tok doxygen inline first eq lead n1 pairs semi w b' hf heq hlead hn1 hall hsemi hy hF
+
+theorem C01_using_namespace_decl (env : Env) (F : Nat) (c : P.Core) (tok : CTok) (doxygen : Option String)
+    (kw first : Tok) (pairs : List (Tok × Tok)) (term : Tok) (w : World) (bmid b' : Buf)
+    (blk : Block) (rest : List Block) (hstack : w.stack = blk :: rest) (hk : blk.view.kind ≠ .cls)
+    (hkw : kw.type = "namespace") (hf : first.type = "NAME")
+    (hall : ∀ p ∈ pairs, p.1.type = "DBL_COLON" ∧ p.2.type = "NAME")
+    (hy : Yields env.cfg w.buf (kw :: first :: pairs.flatMap (fun p => [p.1, p.2])) bmid)
+    (htok : tokenEofOk env.cfg bmid = .ok (some term, b')) (hterm : term.type ≠ "DBL_COLON") (hF : pairs.length + 1 ≤ F) :
+    ∃ (w' : World) (t' : Tok), w'.buf = returnToken t' b' ∧ t'.tv = term.tv ∧
+      SameParse { w with stack := { blk with loc := .tok tok.sidx } :: rest } w' ∧
+      interp env (P.parseUsing F c tok doxygen none) w =
+        interp env (do
+          P.emit (.usingNamespace (first.value :: pairs.map (·.2.value)))
+          let _ ← P.nextTokenMustBe [";"]
+          pure ()) w' :=
+  using_namespace_decl env F c tok doxygen kw first pairs term w bmid b' blk rest hstack hk hkw hf hall hy htok hterm hF
 
 end Cxx
